@@ -7,7 +7,9 @@ from props import codec_common as cc
 
 QUICK_CFGS = ['1:1:1:1:1', '5:4:1:1:1', '20:4:1:1:1', '37:3:2:1:1', '100:8:3:2:4', '64:8:1:2:4', '120:12:2:3:4',
               '255:40:1:5:8', '1000:40:1:1:8', '200:8:4:2:2', '77:7:3:1:1', '2:1:2:1:1', '26:1:1:1:1', '300:12:1:1:4',
-              '640:16:4:2:8', '333:16:2:1:16', '49:1:1:1:1', '90:2:1:2:1', '410:10:2:5:2', '17:1:4:1:1']
+              '640:16:4:2:8', '333:16:2:1:16', '49:1:1:1:1', '90:2:1:2:1', '410:10:2:5:2', '17:1:4:1:1',
+              # sub-symbol sizes that differ (N does not divide T/Al), with N | T and without
+              '480:48:1:4:8', '290:24:2:4:4', '210:20:1:3:4', '77:14:2:4:2']
 QUICK_LEARNED = ['16000:8:1:1:8', '3001:3:2:1:1']
 
 
